@@ -209,6 +209,7 @@ def gen_cli_tasks(chk, tier):
     return tasks
 
 def judge_cli(task, res):
+    if task['app'] == 'nbmerge': return judge_cli_merge(task, res)
     out = []
     for k, (argv, rec) in enumerate(zip(task['argvs'], res.get('recs', []))):
         if 'err' in rec:
@@ -364,6 +365,83 @@ def judge_cli_git(task, res):
                     out.append(('git-shown-change-not-mentioned', {'argv': argv, 'k': k, 'file': nm, 'location': loc_str(loc)})); break
     return out
 
+# ------------------------------------------------------------------ nbmerge --decisions on the command line (file presence patterns)
+# The decision summary of the nbmerge entry point, which builds its renderer configuration from the command line on two separate
+# code paths: the ordinary three-way merge and the "deleted on both branches" shortcut (local == remote == the null file).
+# A side that is None is the null file (/dev/null), as git passes it for a notebook that does not exist on that side.
+MERGE_PATTERNS = {            # name -> which of (base, local, remote) exist
+    'both-deleted': (True, False, False), 'local-deleted': (True, False, True), 'remote-deleted': (True, True, False),
+    'both-added': (False, True, True), 'ordinary': (True, True, True), 'unchanged': (True, True, True)}
+MERGE_FLAGSETS = [[], ['-s'], ['-o'], ['-m'], ['-a'], ['-i'], ['-d'], ['-s', '-o'], ['-S'], ['-O', '-M'], ['-D', '-I', '-A'], ['-s', '-m', '-d']]
+MERGE_EXTRAS = [([], (True, True)), (['--no-color'], (True, True)), (['--no-git'], (True, True)), (['--no-color', '--no-git'], (True, True)),
+                (['--no-color', '--no-git', '--no-use-diff'], (True, True)), (['--no-color'], (False, False)), (['--no-color'], (False, True)),
+                (['--no-git', '--no-use-diff'], (True, True))]
+MERGE_STRATEGIES = ['inline', 'use-base', 'use-local', 'use-remote']      # the choices the command line accepts
+
+def merge_base_notebook(r, i):
+    """a generated notebook that certainly has a cell with a non-empty, escape-free source (so that deleting it is a shown change
+    whenever sources are shown)"""
+    nb = G.gen_notebook(r, ncells=r.choice([1, 2, 3]), exotic=(i % 4 == 3))
+    first = {'cell_type': 'markdown', 'metadata': {}, 'source': '# Title %d\nsome *text* with non-ASCII: æøå →' % i + r.choice(['', '\n'])}
+    if nb['nbformat_minor'] >= 5: first['id'] = G.cell_id(r)
+    nb['cells'].insert(r.randrange(len(nb['cells']) + 1), first)
+    return nb
+
+def gen_merge_cli_tasks(chk, tier):
+    r = chk.rng
+    tasks = []
+    others = ['local-deleted', 'remote-deleted', 'both-added', 'ordinary', 'unchanged']
+    for i in range({'quick': 4, 'thorough': 16}[tier]):
+        base = merge_base_notebook(r, i)
+        local, _ = G.mutate(r, base, n=r.choice([1, 2, 3]), exotic=(i % 4 == 3))
+        remote, _ = G.mutate(r, base, n=r.choice([1, 2, 3]), exotic=(i % 4 == 3))
+        # the both-deleted shortcut under every ignore-flag set x colour / tool setting; one other pattern in rotation on a third of the grid
+        for pat, stride in (('both-deleted', 1), (others[i % len(others)], 3), (others[(i + 3) % len(others)], 3)):
+            if pat == 'unchanged': docs = [base, copy.deepcopy(base), copy.deepcopy(base)]
+            else: docs = [d if keep else None for d, keep in zip((base, local, remote), MERGE_PATTERNS[pat])]
+            argvs = []; tools = []; j = 0
+            for fl in MERGE_FLAGSETS:
+                for extra, tl in MERGE_EXTRAS:
+                    j += 1
+                    if (j + i) % stride: continue
+                    strat = ['--merge-strategy', MERGE_STRATEGIES[(j // 4) % len(MERGE_STRATEGIES)]] if j % 4 == 0 else []
+                    argvs.append(fl + extra + strat); tools.append(list(tl))
+            tasks.append({'op': 'cli', 'app': 'nbmerge', 'pattern': pat, 'nbs': docs, 'argvs': argvs, 'tools': tools, 'src': 'cli-merge'})
+    return tasks
+
+def judge_cli_merge(task, res):
+    """nbmerge --decisions: never fails (exit status 0, or 1 = conflicts, only when the two sides differ from each other),
+    no escape codes with --no-color (stdout and the logged summary), and a summary that says something when a shown change is
+    certain: both sides deleted a notebook holding a non-empty source while sources are shown, or, with no ignore flag at all,
+    some side differs from the base."""
+    out = []
+    base, local, remote = task['nbs']
+    clean_inputs = not any(ESC in t for d in task['nbs'] if d is not None for t in texts_of(d))
+    for k, (argv, rec) in enumerate(zip(task['argvs'], res.get('recs', []))):
+        flags = [a for a in argv if len(a) == 2 and a[0] == '-' and a[1].lower() in FLAG_CAT]
+        if 'err' in rec:
+            out.append(('cli-raises:nbmerge:%s@%s' % (rec['err'], (rec.get('where') or ['?'])[-1]), {'argv': argv, 'k': k, 'msg': rec.get('msg'), 'printed_before': rec.get('partial')}))
+            continue
+        text = rec.get('out', '') + rec.get('log', '')
+        may_conflict = local != remote           # also: deleted on one side, changed on the other
+        if rec.get('rc') not in ((0, None, 1) if may_conflict else (0, None)) or rec.get('exit'):
+            out.append(('cli-exit-status:nbmerge', {'argv': argv, 'k': k, 'rc': rec.get('rc'), 'out': text[-200:]}))
+            continue
+        if '--no-color' in argv and ESC in text and clean_inputs:
+            i = text.index(ESC)
+            out.append(('nocolor-ansi:cli-nbmerge:' + task.get('pattern', '?'), {'argv': argv, 'k': k, 'escapes': text.count(ESC), 'around': text[max(0, i - 60): i + 40]}))
+            continue
+        summary = strip_ansi(rec.get('log', ''))
+        summary = summary.split('Decisions:\n', 1)[1] if 'Decisions:\n' in summary else ''
+        certain = None
+        if base is not None and local is None and remote is None:
+            if 'sources' in shown_from_flags(flags) and any(c.get('source') for c in base['cells']): certain = 'a cell with a source was deleted on both sides and sources are shown'
+        elif not flags and any(d is not None and base is not None and d != base for d in (local, remote)):
+            certain = 'a side differs from the base and nothing is ignored'
+        if certain and summary.strip() == '':
+            out.append(('decisions-silent:cli-nbmerge:' + task.get('pattern', '?'), {'argv': argv, 'k': k, 'why': certain, 'log': rec.get('log', '')[-200:]}))
+    return out
+
 # ------------------------------------------------------------------ Coq terms for the generated cases file
 def cstr(s):
     if all(32 <= ord(ch) < 127 and ch != '"' for ch in s): return '(of_ascii "%s")' % s
@@ -500,6 +578,7 @@ def run(tier, seed):
     t1cases = t1_render_cases(chk, tier)
     cli = gen_cli_tasks(chk, tier)
     cli += gen_git_tasks(chk, tier)          # drawn last: the cases above are the same as before this family existed
+    cli += gen_merge_cli_tasks(chk, tier)    # drawn after the git family for the same reason
     results = core.run_impl(tasks + t1cases + cli, shards=14, script='c16_runner.py')
     res_main = results[:len(tasks)]; res_t1 = results[len(tasks):len(tasks) + len(t1cases)]; res_cli = results[len(tasks) + len(t1cases):]
 
@@ -529,19 +608,26 @@ def run(tier, seed):
                 case = {k: t[k] for k in ('op', 'nb', 'a', 'b', 'base', 'local', 'remote', 'strategy') if k in t}
                 case['configs'] = [t['configs'][ci]]
                 chk.violation(sig, case, detail)
-    ncli = 0; ngit = 0
+    ncli = 0; ngit = 0; nmerge = 0
     for t, res in zip(cli, res_cli):
         if 'task_err' in res:
             chk.broken_obligation('runner-cli:' + res['task_err'], res.get('msg', '')[-600:]); continue
         ncli += len(res.get('recs', []))
         if t['app'] == 'nbdiff-git':
             ngit += len(res.get('recs', [])); hist['cli:cli-git'] = hist.get('cli:cli-git', 0) + 1
+        if t['app'] == 'nbmerge':
+            nmerge += len(res.get('recs', [])); hist['cli:cli-merge:' + t['pattern']] = hist.get('cli:cli-merge:' + t['pattern'], 0) + 1
+            nontrivial.update(hashlib.sha1((json.dumps(a) + rec.get('out', '') + rec['log']).encode()).hexdigest() for a, rec in zip(t['argvs'], res.get('recs', [])) if rec.get('log'))
             nontrivial.update(hashlib.sha1((json.dumps(a) + rec['out']).encode()).hexdigest() for a, rec in zip(t['argvs'], res.get('recs', [])) if rec.get('out'))
         for sig, detail in judge_cli(t, res):
             if t['app'] == 'nbdiff-git':
                 k = detail['k']
                 chk.violation(sig, {'op': 'cli', 'app': t['app'], 'nbs': [], 'commits': t['commits'], 'worktree': t['worktree'], 'plans': [t['plans'][k]],
                                     'argvs': [t['argvs'][k]], 'tools': [t['tools'][k]]}, detail)
+                continue
+            if t['app'] == 'nbmerge':
+                k = detail['k']
+                chk.violation(sig, {'op': 'cli', 'app': 'nbmerge', 'pattern': t['pattern'], 'nbs': t['nbs'], 'argvs': [t['argvs'][k]], 'tools': [t['tools'][k]]}, detail)
                 continue
             chk.violation(sig, {'op': 'cli', 'app': t['app'], 'nbs': t['nbs'], 'argvs': [detail['argv']], 'tools': [[True, True]]}, detail)
 
@@ -637,11 +723,11 @@ def run(tier, seed):
     # ---------------- evidence
     chk.cov.update({
         'evaluations': nrender + ncli, 'distinct_nontrivial': len(nontrivial),
-        'rule': 'one evaluation = one rendering (notebook / notebook diff from nbdime.diff_notebooks / decision list from decide_notebook_merge, or one nbdiff/nbshow/git-nbdiffdriver invocation, nbdiff also between two revisions of a scratch git history with several changed notebooks) under one configuration; '
+        'rule': 'one evaluation = one rendering (notebook / notebook diff from nbdime.diff_notebooks / decision list from decide_notebook_merge, or one nbdiff/nbshow/git-nbdiffdriver invocation, nbdiff also between two revisions of a scratch git history with several changed notebooks, or one nbmerge --decisions invocation over base/local/remote files any of which may be the null file) under one configuration; '
                 'configurations: all 64 ignore subsets x colour x colour-words x {git, diff, difflib} in full on a few cases and with the 12 colour/renderer combinations in rotation on the others, all 16 (use_git,use_diff,has_git,has_diff) settings on one case; '
                 'non-trivial = rendering of a non-empty diff / notebook / decision list that produced output, distinct by sha1 of (configuration, output text)',
         'input_distribution': hist, 'traces_validated_against_impl': t1, 'model_impl_mismatches': t1_mismatch,
-        'filter_paths_compared': len(paths), 'render_skeleton_cases_compared': len(rcases), 'cli_invocations': ncli, 'cli_git_revision_invocations': ngit,
+        'filter_paths_compared': len(paths), 'render_skeleton_cases_compared': len(rcases), 'cli_invocations': ncli, 'cli_git_revision_invocations': ngit, 'cli_nbmerge_decisions_invocations': nmerge,
         'exhaustive': False,
         'explanation': 'proved: filter vs categories, colour tables / command lines clean without colour, renderer selection, dispatch skeleton total on well-formed diffs (premises: string patch total, tool contract), silent on empty, speaks on visible leaves; explored only: value formatters, pprint, pygments, output of git/diff',
     })
